@@ -1381,6 +1381,69 @@ fn norm(model: &str) -> (String, String) {
     (head, proj)
 }
 
+const REENTRANT_SEQ: u64 = 1_000_000;
+
+/// Scripted scenario (oracle only): a factory contract that re-enters itself.  The inner activation
+/// performs a CREATE (consuming the deployer's nonce), the outer activation then writes storage and
+/// returns, so it flushes its own view of the contract state.  The persisted nonce must not go
+/// backwards and the next CREATE must use the next nonce; every child address must follow the
+/// CREATE formula.
+fn reentrant_factory_scenario(cfg: &RunCfg, rep: &mut Report) {
+    const RUNTIME: [u8; 33] = [
+        0x36, 0x60, 0x0e, 0x57, // calldatasize; push1 0x0e; jumpi
+        0x5f, 0x5f, 0x5f, 0xf0, // push0 x3; create
+        0x5f, 0x52, 0x60, 0x20, 0x5f, 0xf3, // mstore; return the child address
+        0x5b, // jumpdest: non-empty calldata
+        0x60, 0x20, 0x5f, 0x5f, 0x5f, 0x5f, 0x30, 0x5a, 0xf1, // call self with empty calldata
+        0x50, 0x5f, 0x51, 0x5f, 0x55, // pop; mload 0; sstore 0 (dirties the outer activation)
+        0x60, 0x20, 0x5f, 0xf3,
+    ];
+    let mut init = vec![0x60, 0x21, 0x60, 0x0a, 0x5f, 0x39, 0x60, 0x21, 0x5f, 0xf3];
+    init.extend_from_slice(&RUNTIME);
+    let w = World::new(false);
+    let acct = w.create_accounts(1, 9191, &TokenAmount::from_whole(1000))[0].0;
+    rep.sequences += 1;
+    let mut lines = vec![format!("# scripted: re-entrant factory (seed {} seq {})", cfg.seed, REENTRANT_SEQ)];
+    let mut bad = |kind: &str, detail: String, lines: &Vec<String>, rep: &mut Report| {
+        let hdr = vec![format!("property C20 seed {} seq {} (re-run: ba_harness c20 --seed {} --only-seq {})", cfg.seed, REENTRANT_SEQ, cfg.seed, REENTRANT_SEQ), format!("violation {}: {}", kind, detail)];
+        let path = write_replay("C20", &format!("{}-{}", cfg.seed, REENTRANT_SEQ), &hdr, lines);
+        rep.violations.push(Violation { kind: kind.into(), detail, replay: path });
+    };
+    let r = w.apply(&acct, &Address::new_id(EAM_ID), &TokenAmount::from_atto(0), fil_actor_eam::Method::CreateExternal as u64, Some(fil_actor_eam::CreateExternalParams(init)));
+    rep.ops += 1;
+    lines.push(format!("create_external factory -> {}", r.code.value()));
+    if !r.ok() { rep.notes.push(format!("re-entrant factory could not be deployed: {}", r.message)); return; }
+    rep.ops_ok += 1;
+    let ret: fil_actor_eam::CreateExternalReturn = r.ret.unwrap().deserialize().unwrap();
+    let a = Address::new_id(ret.actor_id);
+    let a_eth = ret.eth_address.0.to_vec();
+    let nonce_of = |w: &World| vm_api::util::get_state::<fil_actor_evm::State>(&w.vm, &a).map(|s| s.nonce).unwrap_or(0);
+    let mut expected_nonce = nonce_of(&w);
+    for (i, calldata) in [vec![1u8], vec![], vec![1u8], vec![1u8], vec![]].into_iter().enumerate() {
+        let before = nonce_of(&w);
+        let params = fil_actor_evm::InvokeContractParams { input_data: calldata.clone() };
+        let r = w.apply(&acct, &a, &TokenAmount::from_atto(0), fil_actor_evm::Method::InvokeContract as u64, Some(params));
+        rep.ops += 1;
+        rep.op("reentrant-factory");
+        lines.push(format!("invoke factory calldata={:?} -> {}", calldata, r.code.value()));
+        if !r.ok() { bad("reentrant-factory-call-failed", format!("message {}: {}", i, r.message), &lines, rep); return; }
+        rep.ops_ok += 1;
+        let out: fvm_ipld_encoding::BytesDe = r.ret.unwrap().deserialize().unwrap();
+        let child = out.0[12..32].to_vec();
+        let want = spec_create_addr(&a_eth, expected_nonce);
+        expected_nonce += 1;
+        let after = nonce_of(&w);
+        if after < before || after != expected_nonce {
+            bad("deployer-nonce-decreased-or-not-consumed", format!("message {}: persisted nonce {} -> {}, expected {}", i, before, after, expected_nonce), &lines, rep);
+            return;
+        }
+        if child != want {
+            bad("address-not-by-formula", format!("message {}: child {} expected CREATE(A, {}) = {}", i, hexs(&child), expected_nonce - 1, hexs(&want)), &lines, rep);
+            return;
+        }
+    }
+}
+
 pub fn run(cfg: &RunCfg) -> Report {
     let mut rep = Report::new("C20", cfg.seed, &cfg.tier);
     rep.nontrivial_rule = "a sequence is non-trivial when it created at least 3 actors through Exec/Exec4/EAM and at least one of them through an EVM CREATE/CREATE2 opcode; distinct = distinct hash of the op lines".into();
@@ -1602,6 +1665,9 @@ pub fn run(cfg: &RunCfg) -> Report {
         if rep.samples.len() < 3 && nontrivial {
             rep.samples.push(json!({"seq": seq, "ops": lines.iter().skip(4).take(14).map(|l| if l.len() > 160 { format!("{}…", &l[..160]) } else { l.clone() }).collect::<Vec<_>>()}));
         }
+    }
+    if cfg.only_seq.is_none() || cfg.only_seq == Some(REENTRANT_SEQ) {
+        reentrant_factory_scenario(cfg, &mut rep);
     }
     rep.notes.push("a resurrected contract restarts with nonce 1 (System::resurrect → System::new): `deployer nonces only grow` holds per incarnation; the oracle accepts a nonce reset only for a contract that was dead (self-destructed in an earlier message)".into());
     rep.notes.push("a plain send to the f410 form of a reserved eth address creates a placeholder there (VM rule); the EAM never deploys a contract at such an address".into());
